@@ -78,6 +78,7 @@ class SWorld(World):
             self.n += 1
             d = Opaque("disposable", f"{o.name}.{method}#{self.n}")
             self.log.append(("sched", o, method, list(args), dict(kwargs), d))
+            self.__dict__.setdefault("sched_objs", []).append((o, method))  # (never cleared: which scheduler objects the code used)
             return d
         if o.kind == "observer":
             self.log.append(("down", method, list(args)))
@@ -143,6 +144,8 @@ class SrcHarness:
             return NOTSET
         it.call_hook = hook
         self.sched = Opaque("scheduler", "sched")
+        #: a second scheduler, handed to subscribe(): the one given to the FACTORY is the one to use (the subscribe-time one is the fallback)
+        self.sub_sched = Opaque("scheduler", "subscribe_time_scheduler")
         self.observer = Opaque("observer", "observer")
         return it
 
@@ -201,7 +204,7 @@ class SrcHarness:
             return  # (no range object to follow: the obligation above has failed)
         sub = self.subscribe_fn(obs)
         w.log.clear()
-        res = it.call(sub, [self.observer, None], {})
+        res = it.call(sub, [self.observer, self.sub_sched], {})
         sc = self.scheds()
         ok = len(sc) == 1 and sc[0][2] == "schedule" and not self.downs()
         self.rec(ctx, uid + "/subscribe/one-schedule-call-and-no-emission", ok)
@@ -242,7 +245,7 @@ class SrcHarness:
         obs = it.call(f, [xs, self.sched], {})
         sub = self.subscribe_fn(obs)
         w.log.clear()
-        res = it.call(sub, [self.observer, None], {})
+        res = it.call(sub, [self.observer, self.sub_sched], {})
         sc = self.scheds()
         ok = len(sc) == 1 and sc[0][2] == "schedule" and not self.downs() and len([e for e in w.log if e[0] == "iter"]) == 1
         self.rec(ctx, uid + "/subscribe/one-iterator-one-schedule-call-and-no-emission", ok)
@@ -335,7 +338,7 @@ class SrcHarness:
         f = it.module_get("reactivex.observable.fromiterable", "from_iterable_")
         obs = it.call(f, [xs, self.sched], {})
         sub = self.subscribe_fn(obs)
-        it.call(sub, [self.observer, None], {})
+        it.call(sub, [self.observer, self.sub_sched], {})
         A = self.named(self.scheds()[0], ["action", "state"]).get("action")
         # from a position at which exactly one `next` is still to come before the loop ends one way or another
         e_i = A.env.lookup_env("iterator")
@@ -410,7 +413,7 @@ class SrcHarness:
             obs = it.call(f, [d, self.sched], {})
         sub = self.subscribe_fn(obs)
         w.log.clear()
-        res = it.call(sub, [self.observer, self.sched if which == "throw" else None], {})
+        res = it.call(sub, [self.observer, self.sched if which == "throw" else self.sub_sched], {})
         sc = self.scheds()
         self.rec(ctx, uid + "/subscribe/emits-nothing-itself", not self.downs())
         if which == "never":
@@ -597,8 +600,20 @@ class SrcHarness:
             for wch in ("return_value", "empty", "throw", "never", "timer_timespan", "timer_date"):
                 scen.append(lambda ctx, _w=wch: self.run_simple(ctx, _w))
             scen += [lambda ctx: self.run_generate(ctx, False), lambda ctx: self.run_generate(ctx, True)]
+            def framed(f):
+                def g(ctx):
+                    try:
+                        return f(ctx)
+                    finally:
+                        w = getattr(self, "w", None)
+                        used = list(getattr(w, "sched_objs", [])) if w is not None else []
+                        wrong = [(o.name, m) for o, m in used if o is getattr(self, "sub_sched", None)]
+                        if used:
+                            self.rec(ctx, f"{OBS}::source-factories/schedules-on-the-scheduler-the-factory-was-given (the subscribe-time scheduler is only the fallback)",
+                                     not wrong, detail=f"scheduled on the subscribe-time scheduler although the factory was given one: {wrong}")
+                return g
             for f in scen:
-                for p in explore(f):
+                for p in explore(framed(f)):
                     self.results.extend(p.results)
         except Unsupported as e:
             self.unsupported = str(e)
